@@ -491,6 +491,47 @@ package rib
 //@ assigns convFailed, sent(msgCh), recvd(stopCh), getpos_v4, getpos_v6, getpos_mpls, getpos_nhg, getpos_nh
 //@ props C07 C11:lock C12:safety
 // ---- END Get (C07) ----
+// ---- FromGetResponses (C07: "rebuilding a RIB from the responses reproduces the source RIB") ----
+// What is proved: every entry is filed under its own network instance and kind before the per-instance candidate is built;
+// an entry of an unknown kind fails the call; the result has exactly the default instance plus one instance per name that occurs
+// in the responses; each instance's candidate is merged into the holder registered under that name, which is empty before;
+// the result is well-formed (every table entry non-nil and filed under its key). That the candidate's contents equal the
+// entries' payloads field for field is candidateRIB's (trusted) and MergeStructInto's (assumed) part.
+//@ pred entryNI(responses []*spb.GetResponse, i Int, j Int) = responses[i].Entry[j].GetNetworkInstance()
+//@ pred tablesOwn(A *aft.Afts) = (A.Ipv4Entry == nil || fresh(A.Ipv4Entry)) && (A.Ipv6Entry == nil || fresh(A.Ipv6Entry)) && (A.LabelEntry == nil || fresh(A.LabelEntry)) && (A.NextHopGroup == nil || fresh(A.NextHopGroup)) && (A.NextHop == nil || fresh(A.NextHop))
+//@ pred rebuiltWF(r *RIB) = forall k in dom(r.niRIB) :: r.niRIB[k] != nil && r.niRIB[k].r != nil && ribWFk(r.niRIB[k].r)
+//@ unit FromGetResponses
+//@ requires[wire-valid] forall i in 0..len(responses) :: responses[i] != nil && (forall j in 0..len(responses[i].Entry) :: responses[i].Entry[j] != nil && oneofOK(responses[i].Entry[j].Entry))
+//@ requires nolocks(RIBHolder.mu)
+//@ ensures[one-of] (result0 == nil) != (result1 == nil)
+//@ ensures[unknown-kind-fails] (exists i in 0..len(responses) :: exists j in 0..len(responses[i].Entry) :: !entryKindKnown(responses[i].Entry[j])) ==> result1 != nil
+//@ ensures[wf] result1 == nil ==> fresh(result0) && holdersWF(result0) && rebuiltWF(result0) && nolocks(RIBHolder.mu) && held(result0.nrMu) == 0
+//@ ensures[default-instance] result1 == nil ==> result0.defaultName == defaultName && defaultName in dom(result0.niRIB)
+//@ ensures[instances-of-entries] result1 == nil ==> forall i in 0..len(responses) :: forall j in 0..len(responses[i].Entry) :: entryNI(responses, i, j) in dom(result0.niRIB)
+//@ ensures[no-other-instances] result1 == nil ==> forall k in dom(result0.niRIB) :: k == defaultName || (exists i in 0..len(responses) :: exists j in 0..len(responses[i].Entry) :: entryNI(responses, i, j) == k)
+//@ pred entryKindKnown(e *spb.AFTEntry) = istype(e.Entry, *spb.AFTEntry_Ipv4) || istype(e.Entry, *spb.AFTEntry_Ipv6) || istype(e.Entry, *spb.AFTEntry_Mpls) || istype(e.Entry, *spb.AFTEntry_NextHopGroup) || istype(e.Entry, *spb.AFTEntry_NextHop)
+//@ pred groupsWF(m map[string]*aftpb.Afts) = m != nil && (forall n in dom(m) :: m[n] != nil && len(m[n].MacEntry) == 0 && len(m[n].PolicyForwardingEntry) == 0)
+//@ ghostvar fgrI StrIntMap
+//@ ghostvar fgrJ StrIntMap
+//@ at "niAFTs[ni] = &aftpb.Afts{}" ghost fgrI = store(fgrI, ni, outeri)
+//@ at "niAFTs[ni] = &aftpb.Afts{}" ghost fgrJ = store(fgrJ, ni, loopi - 1)
+//@ loop 1 at "range responses" invariant r != nil && fresh(r) && holdersWF(r) && hookInv(r) && r.defaultName == defaultName && dom(r.niRIB) == add(emptyset(string), defaultName) && emptied(r.niRIB[defaultName].r.Afts) && ribWFk(r.niRIB[defaultName].r) && groupsWF(niAFTs) && fresh(niAFTs) && (forall n in dom(niAFTs) :: fresh(niAFTs[n]))
+//@ loop 1 invariant forall i in 0..loopi :: forall j in 0..len(responses[i].Entry) :: entryKindKnown(responses[i].Entry[j]) && entryNI(responses, i, j) in dom(niAFTs)
+//@ loop 1 invariant[group-has-an-entry] forall n in dom(niAFTs) :: 0 <= fgrI[n] && fgrI[n] < loopi && 0 <= fgrJ[n] && fgrJ[n] < len(responses[fgrI[n]].Entry) && entryNI(responses, fgrI[n], fgrJ[n]) == n
+//@ loop 2 at "range resp.Entry" invariant r != nil && fresh(r) && holdersWF(r) && hookInv(r) && r.defaultName == defaultName && dom(r.niRIB) == add(emptyset(string), defaultName) && emptied(r.niRIB[defaultName].r.Afts) && ribWFk(r.niRIB[defaultName].r) && groupsWF(niAFTs) && fresh(niAFTs) && (forall n in dom(niAFTs) :: fresh(niAFTs[n])) && outeri >= 0 && outeri < len(responses) && ranged == responses[outeri].Entry
+//@ loop 2 invariant forall i in 0..outeri :: forall j in 0..len(responses[i].Entry) :: entryKindKnown(responses[i].Entry[j]) && entryNI(responses, i, j) in dom(niAFTs)
+//@ loop 2 invariant forall j in 0..loopi :: entryKindKnown(ranged[j]) && ranged[j].GetNetworkInstance() in dom(niAFTs)
+//@ loop 2 invariant[group-has-an-entry] forall n in dom(niAFTs) :: 0 <= fgrI[n] && fgrI[n] <= outeri && 0 <= fgrJ[n] && fgrJ[n] < len(responses[fgrI[n]].Entry) && (fgrI[n] == outeri ==> fgrJ[n] < loopi) && entryNI(responses, fgrI[n], fgrJ[n]) == n
+//@ loop 3 at "range niAFTs" invariant r != nil && fresh(r) && holdersWF(r) && hookInv(r) && r.defaultName == defaultName && defaultName in dom(r.niRIB) && rebuiltWF(r) && nolocks(RIBHolder.mu) && held(r.nrMu) == 0 && groupsWF(niAFTs)
+//@ loop 3 invariant (forall k in dom(r.niRIB) :: k == defaultName || (k in visited && k in dom(niAFTs))) && (forall k in visited :: k in dom(niAFTs) ==> k in dom(r.niRIB))
+//@ loop 3 invariant forall k in dom(r.niRIB) :: !(k in visited) ==> emptied(r.niRIB[k].r.Afts)
+//@ loop 3 invariant[only-own-objects] onlyfresh() && fresh(r.niRIB) && fresh(niAFTs) && (forall n in dom(niAFTs) :: fresh(niAFTs[n])) && (forall k in dom(r.niRIB) :: fresh(r.niRIB[k]) && fresh(r.niRIB[k].r) && fresh(r.niRIB[k].r.Afts) && tablesOwn(r.niRIB[k].r.Afts))
+//@ loop 1 invariant[only-own-objects] onlyfresh()
+//@ loop 2 invariant[only-own-objects] onlyfresh()
+//@ assert at "ygot.MergeStructInto(r.niRIB[ni].r, cr)" [merged-into-own-instance] ni in dom(r.niRIB) && r.niRIB[ni].name == ni && emptied(r.niRIB[ni].r.Afts)
+//@ assigns fgrI, fgrJ, candFailed
+//@ props C07 C12:safety
+
 // ---- generated by /verif/tools/gen_rib_contracts.py (five AFT tables, one shape) ----
 // separateAfts: the candidate shares no table with the installed RIB (it is freshly built by candidateRIB).
 //@ pred separateAfts(C *aft.Afts, A *aft.Afts) = C != A && (C.Ipv4Entry == nil || C.Ipv4Entry != A.Ipv4Entry) && (C.Ipv6Entry == nil || C.Ipv6Entry != A.Ipv6Entry) && (C.LabelEntry == nil || C.LabelEntry != A.LabelEntry) && (C.NextHopGroup == nil || C.NextHopGroup != A.NextHopGroup) && (C.NextHop == nil || C.NextHop != A.NextHop)
@@ -646,6 +687,7 @@ package rib
 //@ ensures[nh] result1 == nil && len(a.NextHop) == 1 && a.NextHop[0] != nil && len(a.Ipv4Entry) == 0 && len(a.Ipv6Entry) == 0 && len(a.LabelEntry) == 0 && len(a.NextHopGroup) == 0 ==> candOnly_nh(result0.Afts, a.NextHop[0].GetIndex())
 //@   && fresh(result0.Afts.NextHop[a.NextHop[0].GetIndex()]) && fromProto_nh(result0.Afts.NextHop[a.NextHop[0].GetIndex()], a.NextHop[0]) && keyed_nh(result0.Afts.NextHop[a.NextHop[0].GetIndex()], a.NextHop[0].GetIndex())
 //@ ensures[cand-wf] result1 == nil && len(a.MacEntry) == 0 && len(a.PolicyForwardingEntry) == 0 ==> candWF(result0.Afts)
+//@ ensures[cand-keyed] result1 == nil ==> keysOK(result0.Afts) && tablesNonNil(result0.Afts)
 //@ ensures[verdict-recorded] candFailed <==> result1 != nil
 //@ assigns candFailed
 //@ props C01 C02 C07
@@ -1198,7 +1240,7 @@ package rib
 //@ loop 1 invariant forall k: uint64 :: old(retried)[k] ==> retried[k]
 //@ ensures[retried-monotone] forall k: uint64 :: old(retried)[k] ==> retried[k]
 //@ assigns ribState, *oks, *fails, contents(installStack), spawned, hookCount
-//@ props C01 C02 C06 C07:pre:rib.RIB.addEntryInternal C07:at:ack-installed C12:safety C12:ensures#fatal-unknown-ni C12:ensures#answered-or-held C12:ensures#fatal-only-if
+//@ props C01 C02 C06 C07:pre:rib.RIB.addEntryInternal C07:at:ack-installed C12:safety C12:ensures#fatal-unknown-ni C12:ensures#fatal-only-if C12:ensures#answered-or-held
 
 // ---- construction and hooks (C16) ----
 // hookInv: every network instance notifies through the hook last given to SetPostChangeHook,
@@ -1239,6 +1281,9 @@ package rib
 // AddNetworkInstance; no other unit assigns these fields (their frames prove it).
 //@ pred gateInv(r *RIB) = forall k in dom(r.niRIB) :: (r.niRIB[k].checkFn != nil <==> r.ribCheck) && (r.niRIB[k].disableForwardRef <==> r.disableForwardReferences)
 //@   && gateWired(r.niRIB[k]) && (r.niRIB[k].checkFn != nil ==> gateRIB(r.niRIB[k]) == r)
+// holderFresh: the holder and everything it owns were allocated during the call and its tables are still unallocated.
+//@ pred holderFresh(h *RIBHolder) = fresh(h) && fresh(h.r) && fresh(h.r.Afts) && fresh(h.refCounts) && fresh(h.refCounts.NextHop) && fresh(h.refCounts.NextHopGroup)
+//@   && h.r.Afts.Ipv4Entry == nil && h.r.Afts.Ipv6Entry == nil && h.r.Afts.LabelEntry == nil && h.r.Afts.NextHopGroup == nil && h.r.Afts.NextHop == nil
 //@ unit NewRIBHolder
 //@ requires[opts-wf] forall i in 0..len(opts) :: istype(opts[i], *ribHolderCheckFn) ==> payload(opts[i]) != 0
 //@ ensures[gate-check] result0.checkFn != nil <==> (exists i in 0..len(opts) :: istype(opts[i], *ribHolderCheckFn))
@@ -1265,6 +1310,7 @@ package rib
 //@ requires holdersWF(r) && hookInv(r)
 //@ ensures[exists] name in old(dom(r.niRIB)) ==> result0 != nil && dom(r.niRIB) == old(dom(r.niRIB))
 //@ ensures[added] !(name in old(dom(r.niRIB))) ==> result0 == nil && name in dom(r.niRIB) && fresh(r.niRIB[name]) && emptied(r.niRIB[name].r.Afts)
+//@ ensures[added-fresh] !(name in old(dom(r.niRIB))) ==> holderFresh(r.niRIB[name])
 //@ ensures[hook-inv] hookInv(r)
 //@ ensures[gate-inv] old(gateInv(r)) ==> gateInv(r)
 //@ ensures[gated-like-the-rib] !(name in old(dom(r.niRIB))) ==> (r.niRIB[name].checkFn != nil <==> r.ribCheck) && (r.niRIB[name].disableForwardRef <==> r.disableForwardReferences)
@@ -1275,6 +1321,7 @@ package rib
 
 //@ unit New
 //@ ensures[wf] result0 != nil && fresh(result0) && holdersWF(result0) && pendingWF(result0) && hookInv(result0)
+//@ ensures[default-fresh] fresh(result0.niRIB) && fresh(result0.pendingEntries) && holderFresh(result0.niRIB[dn])
 //@ ensures[default-only] dom(result0.niRIB) == add(emptyset(string), dn) && result0.defaultName == dn && emptied(result0.niRIB[dn].r.Afts)
 //@ ensures[nothing-held] dom(result0.pendingEntries) == emptyset(uint64)
 //@ ensures[gate] gateInv(result0) && (result0.ribCheck <==> !(exists i in 0..len(opt) :: istype(opt[i], *disableCheckFn))) && (result0.disableForwardReferences <==> (exists i in 0..len(opt) :: istype(opt[i], *disableForwardRef)))
